@@ -29,13 +29,34 @@ def make(k, d):
   return shared
 
 
+class _Stepper(object):
+  """Requests for `inst.step` hand a FRESH, short-lived bound-method object to the transpiler
+  every time (two instances share the code object)."""
+
+  def __init__(self, k):
+    self.k = k
+
+  def step(self, a, b=40):
+    if a > self.k:
+      return ('gt', a, b, self.k)
+    return ('le', a, b, self.k)
+
+
 def pool():
-  """Fresh function objects for every history (the last one is re-created, its
-  predecessor having been garbage collected)."""
+  """Fresh function objects for every history (index 4 is re-created, its
+  predecessor having been garbage collected); indices 5 and 6 are instances whose bound
+  method `step` is requested."""
   tmp = make(2, 30)
   del tmp
   # (refcounting frees the function object immediately; no gc.collect(): it is very slow inside a CrossHair process)
-  return [make(1, 10), make(5, 20), c10_v1.target, c10_v2.target, make(2, 30)]
+  return [make(1, 10), make(5, 20), c10_v1.target, c10_v2.target, make(2, 30), _Stepper(3), _Stepper(6)]
+
+
+def _entity(obj):
+  """(what is handed to the transpiler, the underlying function, extra leading arguments)."""
+  if isinstance(obj, _Stepper):
+    return obj.step, _Stepper.step, (obj,)
+  return obj, obj, ()
 
 
 OPTS = [
@@ -50,7 +71,7 @@ OPTS = [
 # internal_convert_user_code; the explicit pair differing ONLY in internal_convert_user_code:
 OPTS[2] = converter.ConversionOptions(recursive=False, user_requested=False, internal_convert_user_code=True,
                                       optional_features=None)
-NF = 5
+NF = 7
 NO = len(OPTS)
 SAMPLES = (-1, 2, 4, 7)
 
@@ -92,7 +113,7 @@ _REF = {}
 def reference(fi, oi):
   """Cache-less reference: a brand-new transpiler converts exactly this function."""
   if (fi, oi) not in _REF:
-    f = pool()[fi]
+    f, _, _ = _entity(pool()[fi])
     g, _, _ = Counting().transform(f, converter.ProgramContext(options=OPTS[oi]))
     _REF[(fi, oi)] = _norm_source(g)
   return _REF[(fi, oi)]
@@ -102,10 +123,11 @@ def _history(reqs):
   fs = pool()
   tr = Counting()
   for fi, oi in reqs:
-    f = fs[fi]
-    g, module, source_map = tr.transform(f, converter.ProgramContext(options=OPTS[oi]))
+    ent, f, lead = _entity(fs[fi])
+    g, module, source_map = tr.transform(ent, converter.ProgramContext(options=OPTS[oi]))
+    del ent                    # (a bound method requested as `inst.step` does not outlive the request)
     for x in SAMPLES:
-      if g(x) != f(x):
+      if g(*(lead + (x,))) != f(*(lead + (x,))):
         return False
     if g.__defaults__ is not f.__defaults__ and g.__defaults__ != f.__defaults__:
       return False
@@ -121,7 +143,7 @@ def _history(reqs):
   # at most one source transformation per (code, options)
   per_code = {}
   for fi, oi in reqs:
-    per_code.setdefault((fs[fi].__code__, oi), 0)
+    per_code.setdefault((_entity(fs[fi])[1].__code__, oi), 0)
   total = sum(tr.counts.values())
   if total > len(per_code):
     return False
@@ -189,7 +211,7 @@ def make_history4(f0, o0):
 
 
 HISTORY4 = []
-for _f in range(NF):
+for _f in (0, 2, 4, 5):          # (a subset of first requests: 4 x 2 harnesses x 32768 continuations)
   for _o in (0, 2):
     _h = make_history4(_f, _o)
     globals()[_h.__name__] = _h
@@ -340,4 +362,4 @@ def explain(func, args, kwargs):
     return ('converted_call history: first request (function, options, status) = %s, then 5 bits per request '
             '(f=b0+2b4 in [closure k=1, closure k=5, artifact], o=b1, status=b2+2b3 in [ENABLED, DISABLED, UNSPECIFIED]): %r; options=[recursive, non-recursive]' % (
                 func.split('_')[2:], args))
-  return 'request history bits (5 per request: f=b0+2b1+4b2, o=b3+2b4) from harness %s: %r; pool=[shared(k=1,d=10), shared(k=5,d=20), v1.target, v2.target, shared(k=2,d=30) re-created]' % (func, args)
+  return 'request history bits (5 per request: f=b0+2b1+4b2, o=b3+2b4) from harness %s: %r; pool=[shared(k=1,d=10), shared(k=5,d=20), v1.target, v2.target, shared(k=2,d=30) re-created, Stepper(3).step, Stepper(6).step]' % (func, args)
